@@ -292,6 +292,19 @@ def c02(tier, seed):
             out.append(scenario("c02-%s%s-%s-%s-%d" % (kind, extra.get("val", ""), ctx, pos, rep),
                                 {"keyed": True, "cases": cases, "default": [draw(g("Bool"), "d")]}, fl,
                                 tag={"kind": kind + extra.get("val", ""), "ctx": ctx, "pos": pos}, entry=entry))
+    # a test case that falsifies the property only the first time it is executed (a property that is not a function of its
+    # draws): found in the random phase, or when a fail file is replayed -- Check must still fail the test
+    for j, kind in enumerate(["fatalf", "errorf", "panic", "failnow"]):
+        for variant in ("failfile", "random"):
+            for rep in range(reps):
+                flaky = [draw(g("Int8"), "x"), op("nth", text="once", n=1, body=[op(kind, site=1)])]
+                if variant == "failfile":
+                    runs = [{"prop": {"body": [draw(g("Int8"), "x"), op("fatalf", site=2)]}}, {"prop": {"body": flaky}}]
+                else:
+                    runs = [{"prop": {"body": flaky}}]
+                out.append(scenario("c02-once-%s-%s-%d" % (kind, variant, rep), {"body": flaky},
+                                    {"checks": 5, "seed": rng.randrange(1, 1 << 64), "shrinktime": "0s"}, runs=runs, name="TestOnce",
+                                    tag={"kind": kind, "ctx": "first execution only", "pos": variant}))
     return out
 
 
@@ -379,7 +392,25 @@ def c09(tier, seed):
                         continue   # a failing sub-test would fail the harness binary's own run; covered by the recording TB
                     out.append(scenario("c09-mk-N%d-%s" % (N, pn), prop, dict(fl, nofailfile="true"), name=name, entry="makecheck",
                                         tag={"N": N, "pattern": pn, "files": "none", "entry": "makecheck"}))
+    # a fail file whose test case fails on the first replay only: still a falsified test case -- no random case afterwards, the test fails
+    for j, kind in enumerate(["fatalf", "errorf", "panic"]):
+        flaky = [draw(g("Int8"), "x"), op("nth", text="once", n=1, body=[op(kind, site=1)])]
+        runs = [{"prop": {"body": [draw(g("Int8"), "x"), op("fatalf", site=2)]}}, {"prop": {"body": flaky}}]
+        out.append(scenario("c09-flaky-ff-%s" % kind, {"body": flaky}, {"checks": 7, "seed": rng.randrange(1, 1 << 64), "shrinktime": "0s"},
+                            runs=runs, name="TestFlakyFF", tag={"N": 7, "pattern": "fail file fails once", "files": "failing"}))
     return out
+
+
+def c09_deadline(tier, seed):
+    """Scenarios that run under a real test deadline (MakeCheck, the harness binary is started with -test.timeout):
+    near the deadline Check may stop early, but only passes if it has at least one valid case."""
+    rng = random.Random(seed + 1)
+    slow_skip = [draw(g("Bool"), "b"), op("sleep", ms=300), op("skip")]
+    slow_pass = [draw(g("Bool"), "b"), op("sleep", ms=300)]
+    return [scenario("c09-deadline-allskip", {"body": slow_skip}, {"checks": 1000, "seed": rng.randrange(1, 1 << 64), "nofailfile": "true"}, entry="makecheck",
+                     name="TestDeadline", tag={"N": 1000, "pattern": "always skip, deadline near", "deadline": True}),
+            scenario("c09-deadline-pass", {"body": slow_pass}, {"checks": 1000, "seed": rng.randrange(1, 1 << 64), "nofailfile": "true"}, entry="makecheck",
+                     name="TestDeadline", tag={"N": 1000, "pattern": "never skip, deadline near", "deadline": True})]
 
 
 # ---------------------------------------------------------------------------
